@@ -1,41 +1,203 @@
 import Driver.Proto
 import AdaptaVerif.Model.Geometry
+import AdaptaVerif.Gen.Geometry
+/-!
+Driver mode c16. For every call made by the harness the answer of the implementation is compared
+with (a) the hand model `Model.Geometry.f` (whose geometric meaning is proved in Props/C16.lean) —
+a difference is a SPECFAIL with the concrete tuple — and (b) the kernel `Gen.Geometry.f` generated
+from the current C++ source — a difference there alone means the translator is wrong (DIVERGE).
+-/
 namespace Driver.C16
-open Driver AdaptaVerif.Num AdaptaVerif.Model.Geometry
+open Driver AdaptaVerif.Num
+open AdaptaVerif.Model.Geometry
+namespace G
+export AdaptaVerif.Gen.Geometry (vecDir colinear pointOnLine segmentIntersect cornerSide inValidRegion
+  segmentIntersectPoint rayIntersectPoint)
+end G
 
 def gridPt (side i : Nat) : Pt := ⟨(i / side : Nat), (i % side : Nat)⟩
-
 def dirChar (d : Int) : Char := if d < 0 then '-' else if d > 0 then '+' else '0'
+def bit (b : Bool) : Char := if b then '1' else '0'
+def digit (n : Nat) : Char := Char.ofNat ('0'.toNat + n)
 
-/-- exhaustive chunk: recompute the packed answer strings with the model and compare -/
-def checkGrid (c : Case) : CaseResult := Id.run do
+/-- answers of model (m) and generated kernel (g) for one triple / 4-tuple, in the harness' packing -/
+structure Ans where
+  vd : Char
+  co : Char
+  pl : Char
+
+def ans3M (a b c : Pt) : Ans := ⟨dirChar (vecDir a b c), bit (colinear a b c), bit (pointOnLine a b c)⟩
+def ans3G (a b c : Pt) : Ans := ⟨dirChar (G.vecDir a b c 0), bit (G.colinear a b c 0), bit (G.pointOnLine a b c 0)⟩
+
+structure Ans4 where
+  si : Char
+  ss0 : Char
+  ss1 : Char
+  cs : Char
+  vr : Char
+  ip : Char
+  rp : Char
+  ipPt : Option (Rat × Rat)
+  rpPt : Option (Rat × Rat)
+
+def ssChar (r : Bool × Bool) : Char := digit ((if r.1 then 2 else 0) + (if r.2 then 1 else 0))
+
+def ans4M (a b c d : Pt) : Ans4 :=
+  let ip := segmentIntersectPoint a b c d
+  let rp := rayIntersectPoint a b c d
+  { si := bit (segmentIntersect a b c d)
+    ss0 := ssChar (segmentShapeIntersect a b c d false)
+    ss1 := ssChar (segmentShapeIntersect a b c d true)
+    cs := dirChar (cornerSide a b c d)
+    vr := digit ((if inValidRegion false a b c d then 1 else 0) + (if inValidRegion true a b c d then 2 else 0))
+    ip := digit ip.1.toNat, rp := digit rp.1.toNat
+    ipPt := if ip.1 == 1 then some (ip.2.1, ip.2.2) else none
+    rpPt := if rp.1 == 1 then some (rp.2.1, rp.2.2) else none }
+
+/-- generated kernels (segmentShapeIntersect has a reference parameter and is hand-modelled only) -/
+def ans4G (a b c d : Pt) : Ans4 :=
+  let ip := G.segmentIntersectPoint a b c d
+  let rp := G.rayIntersectPoint a b c d
+  { si := bit (G.segmentIntersect a b c d)
+    ss0 := ssChar (segmentShapeIntersect a b c d false)
+    ss1 := ssChar (segmentShapeIntersect a b c d true)
+    cs := dirChar (G.cornerSide a b c d)
+    vr := digit ((if G.inValidRegion false a b c d then 1 else 0) + (if G.inValidRegion true a b c d then 2 else 0))
+    ip := digit ip.1.toNat, rp := digit rp.1.toNat
+    ipPt := if ip.1 == 1 then some (ip.2.1, ip.2.2) else none
+    rpPt := if rp.1 == 1 then some (rp.2.1, rp.2.2) else none }
+
+def close (impl model : Rat) : Bool := absRat (impl - model) ≤ (1 / 1000000000 : Rat) * (1 + absRat model)
+
+structure St where
+  err : Option Verdict := none
+  i3 : Nat := 0      -- index into the triple strings
+  i4 : Nat := 0
+  ipts : Nat := 0
+  nTrue : Nat := 0
+  calls : Nat := 0
+
+structure Impl where
+  vd : Array Char
+  co : Array Char
+  pl : Array Char
+  si : Array Char
+  ss : Array Char
+  cs : Array Char
+  vr : Array Char
+  ip : Array Char
+  rp : Array Char
+  pts : Array String
+
+def fieldChars (c : Case) (k : String) : Array Char := (((c.get1 k).getD #[""])[0]?.getD "").toList.toArray
+
+def Impl.ofCase (c : Case) : Impl :=
+  { vd := fieldChars c "vecDir", co := fieldChars c "colinear", pl := fieldChars c "pointOnLine"
+    si := fieldChars c "segmentIntersect", ss := fieldChars c "segmentShapeIntersect"
+    cs := fieldChars c "cornerSide", vr := fieldChars c "inValidRegion"
+    ip := fieldChars c "segmentIntersectPoint", rp := fieldChars c "rayIntersectPoint"
+    pts := (c.get1 "points").getD #[] }
+
+def cmpChar (what : String) (impl : Option Char) (m g : Char) (ctx : Unit → String) : Option Verdict :=
+  if impl != some m then some (.specfail s!"{what} {ctx ()}: impl {impl} exact {m}")
+  else if g != m then some (.diverge s!"{what} {ctx ()}: generated kernel {g} but impl/model {m} (translator)")
+  else none
+
+def firstSome (xs : List (Option Verdict)) : Option Verdict := xs.foldl (fun acc x => match acc with | some v => some v | none => x) none
+
+def check3 (im : Impl) (i : Nat) (a b c : Pt) (ctx : Unit → String) : Option Verdict :=
+  let m := ans3M a b c
+  let g := ans3G a b c
+  firstSome [cmpChar "vecDir" im.vd[i]? m.vd g.vd ctx, cmpChar "colinear" im.co[i]? m.co g.co ctx,
+             cmpChar "pointOnLine" im.pl[i]? m.pl g.pl ctx]
+
+def checkPt (what : String) (im : Impl) (ip : Nat) (m g : Option (Rat × Rat)) (ctx : Unit → String) : Option Verdict × Nat :=
+  match m with
+  | none => (none, ip)
+  | some (mx, my) =>
+    match (im.pts[ip]?).bind parseNum, (im.pts[ip+1]?).bind parseNum with
+    | some x, some y =>
+      if !(close x mx && close y my) then (some (.specfail s!"{what} point {ctx ()}: impl ({ratToString x},{ratToString y}) exact ({ratToString mx},{ratToString my})"), ip + 2)
+      else if g != m then (some (.diverge s!"{what} point {ctx ()}: generated kernel differs from model"), ip + 2)
+      else (none, ip + 2)
+    | _, _ => (some (.specfail s!"{what} point {ctx ()}: impl point missing or non-finite"), ip + 2)
+
+def check4 (im : Impl) (i ip : Nat) (a b c d : Pt) (ctx : Unit → String) : Option Verdict × Nat × Bool :=
+  let m := ans4M a b c d
+  let g := ans4G a b c d
+  let e := firstSome [cmpChar "segmentIntersect" im.si[i]? m.si g.si ctx,
+     cmpChar "segmentShapeIntersect(seen=false)" im.ss[2*i]? m.ss0 g.ss0 ctx,
+     cmpChar "segmentShapeIntersect(seen=true)" im.ss[2*i+1]? m.ss1 g.ss1 ctx,
+     cmpChar "cornerSide" im.cs[i]? m.cs g.cs ctx, cmpChar "inValidRegion" im.vr[i]? m.vr g.vr ctx,
+     cmpChar "segmentIntersectPoint" im.ip[i]? m.ip g.ip ctx, cmpChar "rayIntersectPoint" im.rp[i]? m.rp g.rp ctx]
+  let (e1, ip1) := checkPt "segmentIntersectPoint" im ip m.ipPt g.ipPt ctx
+  let (e2, ip2) := checkPt "rayIntersectPoint" im ip1 m.rpPt g.rpPt ctx
+  (firstSome [e, e1, e2], ip2, m.si == '1')
+
+def checkGridTuples (c : Case) : CaseResult := Id.run do
   let side := nat! (((c.get1 "side").getD #["0"])[0]!)
   let ia := nat! (((c.get1 "chunk").getD #["0"])[0]!)
-  let vdImpl := (((c.get1 "vecDir").getD #[""])[0]!).toList.toArray
-  let siImpl := (((c.get1 "segmentIntersect").getD #[""])[0]!).toList.toArray
+  let im := Impl.ofCase c
   let n := side * side
   let a := gridPt side ia
-  let mut iv := 0
-  let mut is := 0
+  let mut i3 := 0
+  let mut i4 := 0
+  let mut ip := 0
   let mut nz := 0
   for ib in [0:n] do
     let b := gridPt side ib
     for ic in [0:n] do
       let cc := gridPt side ic
-      let d := vecDir a b cc
-      if vdImpl[iv]? != some (dirChar d) then
-        return { verdict := .specfail s!"vecDir a={ia} b={ib} c={ic} side={side}: impl {vdImpl[iv]?} model {dirChar d}" }
-      iv := iv + 1
+      match check3 im i3 a b cc (fun _ => s!"grid side={side} a={ia} b={ib} c={ic}") with
+      | some v => return { verdict := v }
+      | none => pure ()
+      i3 := i3 + 1
       for id in [0:n] do
         let dd := gridPt side id
-        let s := segmentIntersect a b cc dd
-        if s then nz := nz + 1
-        if siImpl[is]? != some (if s then '1' else '0') then
-          return { verdict := .specfail s!"segmentIntersect a={ia} b={ib} c={ic} d={id} side={side}: model {s}" }
-        is := is + 1
-  return { verdict := .ok, nontrivial := nz > 0, stats := [("calls", iv + is), ("segint.true", nz)] }
+        let (e, ip', t) := check4 im i4 ip a b cc dd (fun _ => s!"grid side={side} a={ia} b={ib} c={ic} d={id}")
+        match e with
+        | some v => return { verdict := v }
+        | none => pure ()
+        ip := ip'
+        i4 := i4 + 1
+        if t then nz := nz + 1
+  if i3 != im.vd.size || i4 != im.si.size then
+    return { verdict := .diverge s!"answer string length mismatch {i3}/{im.vd.size} {i4}/{im.si.size}" }
+  return { verdict := .ok, nontrivial := nz > 0, stats := [("calls", 3 * i3 + 9 * i4), ("segint.true", nz), ("points.checked", ip / 2)] }
 
-def checkRandom (c : Case) : CaseResult := Id.run do
+def polyAns (poly : List Pt) (q : Pt) : Nat :=
+  (if inPoly poly q true then 1 else 0) + (if inPoly poly q false then 2 else 0) + (if inPolyGen poly q then 4 else 0)
+
+def checkGridPolys (c : Case) : CaseResult := Id.run do
+  let side := nat! (((c.get1 "side").getD #["0"])[0]!)
+  let i0 := nat! (((c.get1 "chunk").getD #["0"])[0]!)
+  let quads := nat! (((c.get1 "quads").getD #["0"])[0]!) == 1
+  let tri := fieldChars c "tri"
+  let quad := fieldChars c "quad"
+  let n := side * side
+  let mut it := 0
+  let mut iq := 0
+  let mut inside := 0
+  for i1 in [0:n] do
+    for i2 in [0:n] do
+      let poly := [gridPt side i0, gridPt side i1, gridPt side i2]
+      for q in [0:n] do
+        let m := polyAns poly (gridPt side q)
+        if m % 2 == 1 then inside := inside + 1
+        if tri[it]? != some (digit m) then
+          return { verdict := .specfail s!"inPoly/inPolyGen triangle ({i0},{i1},{i2}) q={q} side={side}: impl {tri[it]?} exact {m} (bits: inPoly border, inPoly strict, inPolyGen)" }
+        it := it + 1
+      if quads then
+        for i3 in [0:n] do
+          let p4 := [gridPt side i0, gridPt side i1, gridPt side i2, gridPt side i3]
+          for q in [0:n] do
+            let m := polyAns p4 (gridPt side q)
+            if quad[iq]? != some (digit m) then
+              return { verdict := .specfail s!"inPoly/inPolyGen quad ({i0},{i1},{i2},{i3}) q={q} side={side}: impl {quad[iq]?} exact {m}" }
+            iq := iq + 1
+  return { verdict := .ok, nontrivial := inside > 0, stats := [("calls", 3 * (it + iq)), ("inpoly.true", inside)] }
+
+def checkRandomTuples (c : Case) : CaseResult := Id.run do
   let mut calls := 0
   let mut nz := 0
   for l in c.get "q" do
@@ -43,15 +205,50 @@ def checkRandom (c : Case) : CaseResult := Id.run do
     | none => return { verdict := .diverge "unparsable numbers" }
     | some v =>
       let p (i : Nat) : Pt := ⟨v[2*i]!, v[2*i+1]!⟩
-      let d := vecDir (p 0) (p 1) (p 2)
-      let s := segmentIntersect (p 0) (p 1) (p 2) (p 3)
-      calls := calls + 2
-      if d != 0 then nz := nz + 1
-      if d != int! l[8]! then return { verdict := .specfail s!"vecDir {l}: model {d}" }
-      if (if s then 1 else 0) != nat! l[9]! then return { verdict := .specfail s!"segmentIntersect {l}: model {s}" }
-  return { verdict := .ok, nontrivial := nz > 0, stats := [("calls", calls)] }
+      let s (i : Nat) : Array Char := (l[i]?.getD "").toList.toArray
+      let im : Impl := { vd := s 8, co := s 9, pl := s 10, si := s 11, ss := s 12, cs := s 13, vr := s 14, ip := s 15, rp := s 16,
+                         pts := l.extract 17 l.size }
+      let ctx := fun (_ : Unit) => s!"{l.extract 0 8}"
+      match check3 im 0 (p 0) (p 1) (p 2) ctx with
+      | some v => return { verdict := v }
+      | none => pure ()
+      let (e, _, t) := check4 im 0 0 (p 0) (p 1) (p 2) (p 3) ctx
+      match e with
+      | some v => return { verdict := v }
+      | none => pure ()
+      calls := calls + 12
+      if t then nz := nz + 1
+  return { verdict := .ok, nontrivial := nz > 0, stats := [("calls", calls), ("segint.true", nz)] }
+
+def checkRandomPolys (c : Case) : CaseResult := Id.run do
+  let mut poly : List Pt := []
+  let mut calls := 0
+  let mut inside := 0
+  for l in c.lines do
+    if l[0]! == "poly" then
+      let n := nat! l[1]!
+      match nums? (l.extract 2 (2 + 2 * n)) with
+      | none => return { verdict := .diverge "unparsable polygon" }
+      | some v => poly := (List.range n).map (fun i => (⟨v[2*i]!, v[2*i+1]!⟩ : Pt))
+    else if l[0]! == "pq" then
+      match nums? (l.extract 1 3) with
+      | none => return { verdict := .diverge "unparsable point" }
+      | some v =>
+        let q : Pt := ⟨v[0]!, v[1]!⟩
+        let m := polyAns poly q
+        let impl := nat! l[3]! + 2 * nat! l[4]! + 4 * nat! l[5]!
+        calls := calls + 3
+        if m % 2 == 1 then inside := inside + 1
+        if impl != m then
+          return { verdict := .specfail s!"inPoly/inPolyGen poly={poly.map (fun p => (ratToString p.x, ratToString p.y))} q=({ratToString q.x},{ratToString q.y}): impl {impl} exact {m} (bits: inPoly border, inPoly strict, inPolyGen)" }
+  return { verdict := .ok, nontrivial := inside > 0, stats := [("calls", calls), ("inpoly.true", inside)] }
 
 def run (_args : List String) : IO UInt32 :=
-  runCases (fun c => if c.tag == "grid-chunk" then checkGrid c else checkRandom c)
+  runCases (fun c =>
+    if c.tag == "grid-tuples" then checkGridTuples c
+    else if c.tag == "grid-polygons" then checkGridPolys c
+    else if c.tag == "random-tuples" then checkRandomTuples c
+    else if c.tag == "random-polygons" then checkRandomPolys c
+    else { verdict := .diverge s!"unknown case tag {c.tag}" }) (maxSamples := 3)
 
 end Driver.C16
